@@ -36,6 +36,8 @@ def flat_prog(
     none_rate: float = 0.0,
     bad_index_rate: float = 0.0,
     split_rate: float = 0.0,
+    same_qual_rate: float = 0.0,
+    setup_dense: bool = False,
 ) -> Dict[str, Any]:
     """A call-only program: every statement is one call of a constructor function, depending on earlier
     sites through positional args / kwargs / activation flags.  Acyclic by construction."""
@@ -63,6 +65,13 @@ def flat_prog(
                 spec["prio"] = draw(st.integers(prio_range[0], prio_range[1]))
             if draw(st.sampled_from([True, False, False, False])):
                 spec["qual"] = f"mk.<locals>.{fn}"  # a function defined inside another function
+            if same_qual_rate and i not in setup_idx and i not in debug_idx and draw(st.floats(0, 1)) < same_qual_rate:
+                # two different decorated functions with ONE qualified name (closures made by the same factory, the
+                # same function decorated twice with different options): each keeps its own attributes
+                prev = [g for g, sp in fns.items() if not sp.get("setup") and not sp.get("debug")]
+                if prev:
+                    g = draw(st.sampled_from(prev))
+                    spec["qual"] = fns[g].get("qual", g)
             if seq_rate and draw(st.floats(0, 1)) < seq_rate:
                 spec["seq"] = True
             if i in setup_idx:
@@ -100,6 +109,8 @@ def flat_prog(
         k = 0 if not pool else draw(st.integers(0, min(max_deps, len(pool))))
         if wide and pool and k > 0:
             k = draw(st.integers(0, 1))
+        if setup_dense and i in setup_idx and pool:
+            k = min(len(pool), draw(st.integers(1, 2)))  # one root, diamonds among the setup sites
         deps: List[int] = []
         if k:
             deps = draw(st.lists(st.sampled_from(pool), min_size=k, max_size=k, unique=True))
